@@ -111,6 +111,13 @@ func checkC18(p *Prog, r *Report) {
 						}
 					}
 				}
+				if !okG {
+					// the values are a parameter of an unexported writer: the bound is a precondition, established at every call site by
+					// a first pass over the same slice (encodedSize(values) succeeded before writeValues(buf, values) is called)
+					if sp, callers := callerSizePass(p, fn, cv); sp != nil && sp.Bound <= 255 && sp.Bound >= 0 {
+						okG, w = true, fmt.Sprintf("precondition discharged at every call site (%s): a size/bound pass over the same slice returned a nil error, every element has len <= %d", callers, sp.Bound)
+					}
+				}
 				r.Check(okG, kp("CONV", FuncName(fn)+"#uint8(len)≤255"), "conversion guard: a length is narrowed to one byte only under a dominating length <= 255 fact (longer components are rejected, never truncated)", p.Pos(cv.Pos()), w,
 					"the narrowing conversion "+cv.String()+" is not dominated by a <=255 bound: a 256-byte component is silently encoded with length 0")
 				// the rejecting branch returns an error
@@ -120,6 +127,27 @@ func checkC18(p *Prog, r *Report) {
 	}
 	r.Floor("narrowing-conversions-in-compkey", nConv, 1)
 	// Encode / PartialEncode wrappers
+	// the encoder as the wrappers see it: the function holding the conversion, or an unexported function of the package that hands
+	// its own first parameter on to it (encode → writeValues)
+	encChain := map[*ssa.Function]bool{}
+	if encFn != nil {
+		encChain[encFn] = true
+		for _, g := range p.ModFuncs {
+			if pkgPathOf(g) != Rel(compkeyPkg) || g == encFn || len(g.Params) == 0 || token.IsExported(g.Name()) {
+				continue
+			}
+			for _, cs := range callSites(g) {
+				if cs.Callee != encFn {
+					continue
+				}
+				for _, a := range cs.Instr.Common().Args {
+					if a == ssa.Value(g.Params[0]) {
+						encChain[g] = true
+					}
+				}
+			}
+		}
+	}
 	if encFn != nil {
 		for _, name := range []string{"Encode", "PartialEncode"} {
 			fn := sp.Func(name)
@@ -131,7 +159,7 @@ func checkC18(p *Prog, r *Report) {
 			fa := NewFacts(p, fn, o)
 			found := false
 			for _, cs := range callSites(fn) {
-				if cs.Callee != encFn {
+				if cs.Callee == nil || !encChain[cs.Callee] {
 					continue
 				}
 				found = true
@@ -358,6 +386,15 @@ func checkEncoderShape(p *Prog, r *Report, kp func(string, string) string, fn *s
 			}
 		}
 	}
+	if prm, isPrm := buf.(*ssa.Parameter); isPrm && !okSize {
+		// the buffer is a parameter of an unexported writer: at every call site it is make([]byte, size) with size the result of the
+		// size pass over the slice handed in as values
+		if sp, callers := callerSizePass(p, fn, cv); sp != nil && callerBufferIsSizePass(p, fn, prm, cv) {
+			pass = sp
+			okSize = sp.PerC == 1
+			whyS = fmt.Sprintf("at every call site (%s) the buffer is make([]byte, size) with size = 0 + Σ(%d + len(value)) over the same values", callers, sp.PerC)
+		}
+	}
 	r.Check(okSize, kp("LIN", fname+"#buffer-size=Σ(1+len)"), "the buffer has exactly one length byte plus the value's bytes per component", site, whyS, whyS)
 	// error branch: the block testing the bound has a failing successor
 	okErr := false
@@ -377,22 +414,45 @@ func checkEncoderShape(p *Prog, r *Report, kp func(string, string) string, fn *s
 }
 
 // checkDecoderShape (DESIGN C18-D2).
-func checkDecoderShape(p *Prog, r *Report, kp func(string, string) string, fn *ssa.Function) {
-	fname := FuncName(fn)
-	bz := fn.Params[0]
-	// n = int(bz[I])
+// lengthByteRead: n = int(bz[I]) with bz the function's first parameter.
+func lengthByteRead(fn *ssa.Function) *ssa.Convert {
+	if fn == nil || len(fn.Params) == 0 {
+		return nil
+	}
 	var nConv *ssa.Convert
 	for _, b := range fn.Blocks {
 		for _, in := range b.Instrs {
 			if cv, ok := in.(*ssa.Convert); ok {
 				if u, ok := cv.X.(*ssa.UnOp); ok && u.Op == token.MUL {
-					if ia, ok := u.X.(*ssa.IndexAddr); ok && ia.X == ssa.Value(bz) {
+					if ia, ok := u.X.(*ssa.IndexAddr); ok && ia.X == ssa.Value(fn.Params[0]) {
 						nConv = cv
 					}
 				}
 			}
 		}
 	}
+	return nConv
+}
+
+func checkDecoderShape(p *Prog, r *Report, kp func(string, string) string, entry *ssa.Function) {
+	fn := entry
+	// the loop may sit in a helper of the package that is handed the input bytes (Decode → splitValues(bz))
+	var viaCall ssa.CallInstruction
+	if lengthByteRead(entry) == nil {
+		for _, cs := range callSites(entry) {
+			g := cs.Callee
+			if g == nil || g == entry || pkgPathOf(g) != pkgPathOf(entry) || len(cs.Instr.Common().Args) == 0 || cs.Instr.Common().Args[0] != ssa.Value(entry.Params[0]) {
+				continue
+			}
+			if lengthByteRead(g) != nil {
+				fn, viaCall = g, cs.Instr
+			}
+		}
+	}
+	fname := FuncName(fn)
+	bz := fn.Params[0]
+	// n = int(bz[I])
+	nConv := lengthByteRead(fn)
 	if nConv == nil {
 		r.Fail(kp("LIN", fname+"#reads-length-byte"), "the decoder reads one length byte at the running index", p.FnPos(fn), "no int(bz[idx]) found")
 		return
@@ -495,12 +555,141 @@ func checkDecoderShape(p *Prog, r *Report, kp func(string, string) string, fn *s
 	}
 	r.Check(okApp, kp("LIN", fname+"#appends-every-value"), "every decoded value is appended", site, "append on the accepting path", "decoded values are dropped")
 	okOut := false
-	for _, cs := range callSites(fn) {
+	for _, cs := range callSites(entry) {
 		if strings.HasSuffix(cs.Name, "CompositeKey.FromByteSlices") {
 			okOut = true
+			if viaCall != nil {
+				// … with the values the helper returned
+				args := cs.Instr.Common().Args
+				okOut = false
+				if len(args) > 0 {
+					if ex, isEx := args[len(args)-1].(*ssa.Extract); isEx && ex.Index == 0 && ex.Tuple == viaCall.Value() {
+						okOut = true
+					}
+				}
+			}
 		}
 	}
-	r.Check(okOut, kp("ORIGIN", fname+"#delegates-to-FromByteSlices"), "the typed key validates and assigns the components", p.FnPos(fn), "out.FromByteSlices(values)", "FromByteSlices is not called")
+	r.Check(okOut, kp("ORIGIN", FuncName(entry)+"#delegates-to-FromByteSlices"), "the typed key validates and assigns the components", p.FnPos(entry), "out.FromByteSlices(values)", "FromByteSlices is not called with the decoded values")
+}
+
+// callerSizePass: fn is an unexported function whose values slice (the slice the converted length's element comes from) is a
+// parameter; at every call site in the package the call is preceded by a successful size/bound pass over the argument. Returns
+// the (weakest) pass and the callers' names.
+func callerSizePass(p *Prog, fn *ssa.Function, cv *ssa.Convert) (*sizePass, string) {
+	if token.IsExported(fn.Name()) {
+		return nil, ""
+	}
+	lc, ok := cv.X.(*ssa.Call)
+	if !ok || len(lc.Call.Args) != 1 {
+		return nil, ""
+	}
+	u, ok := lc.Call.Args[0].(*ssa.UnOp)
+	if !ok {
+		return nil, ""
+	}
+	ia, ok := u.X.(*ssa.IndexAddr)
+	if !ok {
+		return nil, ""
+	}
+	prm, ok := ia.X.(*ssa.Parameter)
+	if !ok {
+		return nil, ""
+	}
+	idx := -1
+	for i, q := range fn.Params {
+		if q == prm {
+			idx = i
+		}
+	}
+	if idx < 0 {
+		return nil, ""
+	}
+	var worst *sizePass
+	var names []string
+	n := 0
+	for _, g := range p.ModFuncs {
+		if g.Blocks == nil {
+			continue
+		}
+		for _, cs := range callSites(g) {
+			if cs.Callee != fn {
+				continue
+			}
+			n++
+			args := cs.Instr.Common().Args
+			if idx >= len(args) {
+				return nil, ""
+			}
+			sp, _ := sizePassBefore(g, cs.Instr.(ssa.Instruction), args[idx])
+			if sp == nil {
+				return nil, ""
+			}
+			if worst == nil || sp.Bound > worst.Bound {
+				worst = sp
+			}
+			names = append(names, FuncName(g))
+		}
+	}
+	if n == 0 {
+		return nil, ""
+	}
+	return worst, strings.Join(names, ", ")
+}
+
+// callerBufferIsSizePass: at every call site of fn the argument for the buffer parameter is make([]byte, res#0 of the size pass
+// over the argument for the values parameter).
+func callerBufferIsSizePass(p *Prog, fn *ssa.Function, buf *ssa.Parameter, cv *ssa.Convert) bool {
+	bi := -1
+	for i, q := range fn.Params {
+		if q == buf {
+			bi = i
+		}
+	}
+	lc, _ := cv.X.(*ssa.Call)
+	if bi < 0 || lc == nil {
+		return false
+	}
+	vprm, _ := lc.Call.Args[0].(*ssa.UnOp).X.(*ssa.IndexAddr).X.(*ssa.Parameter)
+	vi := -1
+	for i, q := range fn.Params {
+		if q == vprm {
+			vi = i
+		}
+	}
+	if vi < 0 {
+		return false
+	}
+	n := 0
+	for _, g := range p.ModFuncs {
+		if g.Blocks == nil {
+			continue
+		}
+		for _, cs := range callSites(g) {
+			if cs.Callee != fn {
+				continue
+			}
+			n++
+			args := cs.Instr.Common().Args
+			ms, ok := args[bi].(*ssa.MakeSlice)
+			if !ok {
+				return false
+			}
+			ex, ok := ms.Len.(*ssa.Extract)
+			if !ok || ex.Index != 0 {
+				return false
+			}
+			c, ok := ex.Tuple.(*ssa.Call)
+			if !ok || len(c.Call.Args) != 1 || c.Call.Args[0] != args[vi] {
+				return false
+			}
+			sp, call := sizePassBefore(g, cs.Instr.(ssa.Instruction), args[vi])
+			if sp == nil || call != c {
+				return false
+			}
+		}
+	}
+	return n > 0
 }
 
 type keyComp struct {
